@@ -46,7 +46,7 @@ def comp_type(pm, obj):
 
 def step_params(pm: PM):
     """(dt, n) discovered from the `time` field: time[k] = k*dt, len = n, both single parameter atoms."""
-    t = pm.field("time")
+    t = famify(pm.field("time"))
     if not (isinstance(t, ListV) and t.kind == "fam" and isinstance(t.elem, Num)):
         return None, None, "time is not a comprehension over the step index"
     idx = Rat.atom(t.idx)
